@@ -381,6 +381,7 @@ func (l *Loader) resolveSerial(ctx context.Context, nodes []*FetchTreeNode) erro
 }
 
 func (l *Loader) preparePhase(item *FetchItem) (*preparedFetch, error) {
+	verifPoint("ld.prepare", verifFetchID(item), 0)
 	l.dataBuffer.Lock()
 	defer l.dataBuffer.Unlock()
 
